@@ -193,6 +193,8 @@ Section Pull.
       + (* merge: the merged body becomes a child of the remote leaf *)
         cbn [hd_error]. set (new := mkid (Some cb) mb).
         assert (NL : mb <> b_tomb) by (eapply POK; eauto).
+        assert (NT : (mb =? b_tomb) = false) by (apply N.eqb_neq; exact NL).
+        rewrite NT, andb_false_r. cbn [orb].
         assert (GH' : ghist (new :: cb :: n) (hd_error known)).
         { apply ghist_split. rewrite <- app_comm_cons, <- Ehist. apply (ghist_ext mkdig (cb :: rest) mb G). }
         assert (NI' : forall x, In x (new :: cb :: n) -> contains ([RT] ++ ptree A) x = false).
